@@ -315,7 +315,7 @@ def _layout_clauses():
 
 MANIFEST = {
     'engine': 'jxa+pyvc',
-    'technique': 'contract-based: linearity and structural zeros proved on the traced program (jaxpr abstract interpretation), shape arithmetic by VCs (z3); operator identities on complete bases (bounded over grids)',
+    'technique': 'contract-based: linearity and structural zeros proved on the traced program (jaxpr abstract interpretation), shape arithmetic, coefficient layouts (m and l axes incl. zero padding) and mask index predicates of both implementations by VCs from the real source for all sizes / meshes / multiples (pyvc, z3); operator identities on complete bases (bounded over grids)',
     'text': ('other: the quantifier over fields is closed deductively (linearity of the real transforms is proved from their jaxpr, '
              'after which the matrix on the complete coefficient basis decides the identity for all fields); the quantifier over '
              'grid configurations is bounded by the enumerated family; float64 with tol 1e-12. Shape/padding arithmetic is proved for all sizes.'),
